@@ -189,6 +189,39 @@ def c14_tables(ctx, prog):
         TB.check_shifts(prog, F, rep)
     ctx.extra["table_subscripts_without_verdict"] = undet[:20]
     ctx.floor("C14.L5t", 60)
+    # L5v: storage whose size follows a count is taken from the heap (where a shortage is an error return), not from the stack:
+    # a variable-length array or alloca() sized by an unbounded count runs off the calling thread's stack
+    import re
+    from .rulelib import const_of
+    vlas = []
+    nfun = 0
+    for F in prog.funcs_all:
+        if not F.file.startswith(prog.root) or "/test/" in F.file or "/examples/" in F.file:
+            continue
+        nfun += 1
+        for n in F.nodes.values():
+            names = []
+            if n["k"] == "VarDecl":
+                for dim in re.findall(r"\[([^\]]*)\]", n.get("ct") or n.get("t") or ""):
+                    if re.search(r"[A-Za-z_]", dim):
+                        names += re.findall(r"[A-Za-z_][A-Za-z_0-9]*", dim)
+            elif n["k"] in ("CallExpr",) and n.get("callee") in ("alloca", "__builtin_alloca") and const_of(prog, n["c"][1]) is None:
+                names += [x["name"] for x in walk_nodes(n["c"][1]) if x["k"] == "DeclRefExpr"]
+            if not names:
+                continue
+            bounded = False
+            for c in F.nodes.values():
+                if c["k"] == "BinaryOperator" and c["op"] in ("<", "<=", ">", ">="):
+                    a, b = strip(c["c"][0]), strip(c["c"][1])
+                    for x, y in ((a, b), (b, a)):
+                        k = const_of(prog, y)
+                        if x["k"] == "DeclRefExpr" and x.get("name") in names and k is not None and 0 <= k <= 65536 and c["l"][0] <= n["l"][0]:
+                            bounded = True
+            if not bounded:
+                vlas.append("%s:%d %s" % (F.name, n["l"][0], expr_str(n)[:60]))
+    ctx.ob("C14.L5v", "library: stack storage sized at run time", "no variable-length array or alloca() takes its size from a count that the "
+           "function has not first compared with a small constant (a valid but large table must end in an error return, not in a "
+           "stack overflow)", not vlas, {"functions_scanned": nfun, "sites": vlas[:4]})
 
 
 def c14_streams(ctx, prog):
